@@ -101,9 +101,9 @@ func VH_C07_seq() { verifC07Seq(5, 2, false) }
 
 func VH_C07_seq_resize() { verifC07Seq(4, 3, true) }
 
-func VH_C07_seq_T() { verifC07Seq(7, 3, false) }
+func VH_C07_seq_T() { verifC07Seq(6, 3, false) }
 
-func VH_C07_seq_resize_T() { verifC07Seq(6, 3, true) }
+func VH_C07_seq_resize_T() { verifC07Seq(5, 3, true) }
 
 // disabled cache: everything is new
 func VH_C07_disabled() {
